@@ -169,6 +169,9 @@ func checkC18(c c18Case, rec *Rec) *Violation {
 	fifth := wantIP.String() + " same-ip.example " + c.Names[0]
 	lineNames[fifth] = []string{"same-ip.example", c.Names[0]}
 	text += fifth + "\n"
+	if hash64(line)%7 < 3 {
+		text = strings.ReplaceAll(text, "\n", "\r\n") // the same lines with CR LF endings
+	}
 	// the list id varies with the line; 0 makes the storage index of the first line 0
 	// (cosmetic rules are ignored for some lists: hosts lines are not cosmetic rules)
 	st, err := filterlist.NewRuleStorage([]filterlist.RuleList{&filterlist.StringRuleList{ID: []int{0, 3, -1}[hash64(line)%3], RulesText: text, IgnoreCosmetic: hash64(line)%5 < 2}})
